@@ -237,16 +237,20 @@ def bad_shapes(maxdim=3, maxext=3):
     return out
 
 
-def make_bad_program(shapes, world_n):
+def make_bad_program(shapes, world_n, pending=False):
+    """pending: a valid symmetric tensor is already waiting in the
+    allreduce bucket (other dtype, or filling the tiny cap) when the bad
+    tensor is submitted; nothing may be sent by the rejected call."""
     def program(rank, world):
         from kfac.distributed import (NonSquareTensorError,
                                       TorchDistributedCommunicator)
 
         sub = dist.new_group([0, 1]) if world_n > 2 else None
         groups = [None] + ([sub] if sub is not None and rank < 2 else [])
-        tdc = TorchDistributedCommunicator(bucket_cap_mb=1.0)
+        tdc = TorchDistributedCommunicator(
+            bucket_cap_mb=16e-6 if pending else 1.0)
         out = []
-        for shp in shapes:
+        for si, shp in enumerate(shapes):
             for gi, g in enumerate(groups):
                 x = torch.ones(shp)
                 for name, fn in (
@@ -257,15 +261,26 @@ def make_bad_program(shapes, world_n):
                     ('broadcast', lambda: tdc.broadcast(
                         x, src=0, group=g, symmetric=True)),
                 ):
+                    if pending:
+                        world.tag[rank] = ('pending', shp, gi)
+                        good = torch.ones(
+                            (2, 2), dtype=(torch.float64, torch.float32)[
+                                (si + gi) % 2])
+                        tdc.allreduce_bucketed(good, group=g, symmetric=True)
                     world.tag[rank] = (name, shp, gi)
+                    n0 = len(world.trace[rank])
                     try:
                         fn()
-                        out.append((name, shp, gi, 'no-error'))
+                        res = 'no-error'
                     except NonSquareTensorError:
-                        out.append((name, shp, gi, 'ok'))
+                        res = 'ok'
                     except Exception as e:  # noqa
-                        out.append((name, shp, gi,
-                                    f'{type(e).__name__}: {e}'))
+                        res = f'{type(e).__name__}: {e}'
+                    sent = world.trace[rank][n0:]
+                    if res == 'ok' and sent:
+                        res = (f'rejected only after communication had been '
+                               f'started ({sent[0]["kind"]}{sent[0]["sig"]})')
+                    out.append((name, shp, gi, res))
             world.tag[rank] = ('flush', shp)
             tdc.flush_allreduce_buckets()
         return out
@@ -274,20 +289,23 @@ def make_bad_program(shapes, world_n):
 
 
 def bad_case(part, item):
-    shapes, world_n = item
-    w = simdist.run_world(world_n, make_bad_program(shapes, world_n),
+    shapes, world_n = item[:2]
+    pending = bool(item[2]) if len(item) > 2 else False
+    w = simdist.run_world(world_n,
+                          make_bad_program(shapes, world_n, pending),
                           'S0-lowest-eager')
     part.count('executions')
     part.count('transitions', w.stats['points'])
     part.count('states', w.stats['points'] + 1)
     for k, t in w.violations:
         part.violation(f'badshape:{k}', t, {'kind': 'bad', 'shapes': shapes,
-                                            'world': world_n})
+                                            'world': world_n,
+                                            'pending': pending})
     for r, e in enumerate(w.errors):
         if e and e[0] != 'SimViolation':
             part.violation('badshape:exception', f'rank{r}: {e[0]}',
                            {'kind': 'bad', 'shapes': shapes,
-                            'world': world_n})
+                            'world': world_n, 'pending': pending})
     for rank, out in enumerate(w.results):
         for name, shp, gi, res in out or []:
             part.count('evaluations')
@@ -297,15 +315,16 @@ def bad_case(part, item):
                     f'badshape:{name}:dim{len(shp)}',
                     f'rank{rank}: {name}(symmetric=True) on shape {shp} '
                     f'-> {res} instead of NonSquareTensorError',
-                    {'kind': 'bad', 'shapes': [shp], 'world': world_n})
-        if w.trace[rank]:
+                    {'kind': 'bad', 'shapes': [shp], 'world': world_n,
+                     'pending': pending})
+        if w.trace[rank] and not pending:
             e = w.trace[rank][0]
             part.violation(
                 f'badshape:communicated:{e["tag"][0] if e["tag"] else "?"}',
                 f'rank{rank} communicated {e["kind"]}{e["sig"]} although '
                 f'every submitted tensor had a bad shape (during '
                 f'{e["tag"]})', {'kind': 'bad', 'shapes': shapes,
-                                 'world': world_n})
+                                 'world': world_n, 'pending': pending})
 
 
 def main(run: core.Run):
@@ -334,8 +353,8 @@ def main(run: core.Run):
     core.pmap(run, comm_case, comm,
               weight=lambda it: (1 if it[1] == 'fixed' else 40))
     shapes = bad_shapes()
-    bad = [(shapes[i:i + 8], wn) for wn in (2, 3)
-           for i in range(0, len(shapes), 8)]
+    bad = [(shapes[i:i + 8], wn, pend) for wn in (2, 3)
+           for pend in (False, True) for i in range(0, len(shapes), 8)]
     core.pmap(run, bad_case, bad)
     run.c['distinct_nontrivial'] = len(run.distinct.get('nontrivial', ()))
     run.rule = (
@@ -346,7 +365,9 @@ def main(run: core.Run):
         'sub-group), fixed schedules + exhaustive interleavings of small '
         'programs; bad shapes: every shape with <=3 dims of extent <=3 that '
         'is not square 2-D must raise NonSquareTensorError with an empty '
-        'collective trace; non-trivial = n>1 pure cases, comm programs and '
+        'collective trace, also when a valid tensor of another dtype / '
+        'filling the (tiny) bucket cap is already pending in the allreduce '
+        'bucket (no collective may start during the rejected call); non-trivial = n>1 pure cases, comm programs and '
         '(op, bad shape) pairs')
     run.sample({'pure': [1, 'f16', run.seed], 'layouts': LAYOUTS})
     run.sample({'bad_shapes': [list(s) for s in shapes[:6]]})
@@ -365,5 +386,6 @@ def replay(run, data):
     elif d['kind'] == 'comm':
         comm_case(part, (d['cfg'], d['mode']))
     else:
-        bad_case(part, ([tuple(s) for s in d['shapes']], d['world']))
+        bad_case(part, ([tuple(s) for s in d['shapes']], d['world'],
+                        d.get('pending', False)))
     run.merge(part.dump())
